@@ -19,7 +19,8 @@ RULE = ("0-8 agents with arbitrary subsets of 4 component types and tags from {d
         "250*k reseedings of the model's generator; repeated picks under the same model seed with ambient RNG "
         "perturbation in between; non-trivial = a template of >=2 types that some agents match only partly, a tag-0 "
         "filter excluding >=1 agent and a candidate set >=2; distinct = sequence of (op, template size, tag, |answer|, "
-        "|population|)")
+        "|population|)"
+        "; also: tags reassigned while resident, a component type that subclasses another, model lifecycle ops")
 COMPONENTS = {"real": ["ECAgent.Core.Environment.get_agents / get_random_agent / shuffle / add_agent / remove_agent",
                        "Agent.has_component", "Model.random", "SpaceWorld (some runs)"],
               "stub": ["component classes and agents are harness-defined; global random / numpy.random are perturbed"]}
